@@ -28,6 +28,8 @@ fn main() {
             eprintln!("harness panic: {info}");
         }
     }));
+    #[cfg(not(miri))]
+    io::start_watchdog();
     let args: Vec<String> = std::env::args().collect();
     if args.len() < 3 {
         eprintln!("usage: verif-harness record <area> [--key value]...");
